@@ -882,7 +882,7 @@ impl Formatter {
     if self.html {
       format!("<div id=\"{}\" equation=\"{}\" class=\"mech-equation\"></div>",id, node.to_string())
     } else {
-      format!("$$ {}\n", node.to_string())
+      format!("$${}\n", node.to_string())
     }
   }
 
